@@ -434,7 +434,13 @@ def _one_random(kit, actor, doc, root, sub, wts, cfg):
             val = rng.choice(b) if (b and rng.random() < 0.15) else rng.choice(g)
             yield {'op': 'DOT_SET', 'a': actor, 'p': path, 'name': name, 'v': {'kind': 'value', 'value': val}}
         elif kind == 'dot_element':
-            yield {'op': 'DOT_SET', 'a': actor, 'p': path, 'name': name, 'v': {'kind': 'element', 'c': kit.childspec(name)}}
+            if rng.random() < 0.2:
+                # an element of ANOTHER class assigned to the shortcut of `name` (must be refused)
+                other = rng.choice([x for x in (sub + [kit.foreign_name(node)]) if x != name] or [kit.foreign_name(node)])
+                yield {'op': 'DOT_SET', 'a': actor, 'p': path, 'name': name, 'v': {'kind': 'element', 'c': kit.childspec(other)},
+                       'fault': 'rej.wrong_child'}
+            else:
+                yield {'op': 'DOT_SET', 'a': actor, 'p': path, 'name': name, 'v': {'kind': 'element', 'c': kit.childspec(name)}}
         else:
             yield {'op': 'DOT_SET', 'a': actor, 'p': path, 'name': name, 'v': {'kind': 'none'}}
     elif kind == 'to_string':
